@@ -604,6 +604,7 @@ func c12World(rc *kernel.RunCtx) {
 	t := rc.T
 	k := kernel.New(t, kernel.M1, 1<<30)
 	kernel.Active = k
+	defer lockAware(k)()
 	kn := drawKnobs(t, rc.Run)
 	kn.OwnBuf = false
 	kn.install(t)
@@ -746,6 +747,12 @@ func c12World(rc *kernel.RunCtx) {
 		k.Quiesce()
 		ps := k.ParkedList()
 		if len(ps) == 0 {
+			if n := k.Blocked(); n > 0 {
+				// nothing runs, nothing is held by the scheduler, and tasks wait for a lock of the
+				// code under test: only one of themselves could release it
+				rc.Fail("C12/deadlock", "%d render(s) wait forever for a lock in the code under test while no other render is running or held at a seam", n)
+				rc.Res.Restart = true
+			}
 			break
 		}
 		runaway := false
